@@ -10,13 +10,43 @@ HASHES = {
 }
 
 
+class CallTimeout(BaseException):
+    """Raised by the per-call alarm inside a library call that does not return (BaseException so that library code cannot swallow it)."""
+
+
+CALL_LIMIT_S = int(__import__("os").environ.get("PV_CALL_LIMIT_S", "240"))
+
+
+def _alarm(signum, frame):
+    raise CallTimeout()
+
+
 def call(fn, *a, **k):
+    """Run one library call.  A call that does not return within CALL_LIMIT_S (orders of magnitude above any legitimate
+    cost) is abandoned so that the rest of the workload - and the violations already recorded - are not lost with the shard;
+    the abandoned call itself is reported as an inconclusive reason, not as a violation (no wall-clock verdicts)."""
+    import signal
+    import threading
+    timed = threading.current_thread() is threading.main_thread() and CALL_LIMIT_S > 0
+    if timed:
+        old = signal.signal(signal.SIGALRM, _alarm)
+        signal.setitimer(signal.ITIMER_REAL, CALL_LIMIT_S)
     try:
         return ("ok", fn(*a, **k))
+    except CallTimeout:
+        from .. import core
+        rec = core.CUR
+        if rec is not None and len(rec.inconclusive) < 8:
+            rec.inconclusive.append("a library call (%s) did not return within %d s and was abandoned" % (getattr(fn, "__name__", repr(fn))[:60], CALL_LIMIT_S))
+        return ("exc", TimeoutError("call abandoned after %d s" % CALL_LIMIT_S))
     except RecursionError as e:
         return ("exc", e)
     except Exception as e:
         return ("exc", e)
+    finally:
+        if timed:
+            signal.setitimer(signal.ITIMER_REAL, 0)
+            signal.signal(signal.SIGALRM, old)
 
 
 def msg_pool(rng, big=False):
